@@ -172,9 +172,9 @@ LEVELS = {
     "C04": ("Proved: ValidPath specification; for every operation of the key-value model, the Sub view and the mount FS, an invalid name (either name for Rename) leaves the whole state unchanged and fails with ErrInvalid naming the caller's path; valid names are never refused as invalid. "
             "Checked every run: model = implementation on 1.5k cases; 9k name x operation x layer cases (incl. os, cold and warm cache, a finished, a failed and a cancelled tar FS) against the gate's expected behaviour.",
             "os, cache and tar layers are oracle-only."),
-    "C05": ("Proved: in every state (store failures included) each failure of Stat, Mkdir, Remove, Chmod, Chtimes and OpenFile of the key-value model is a PathError naming exactly the caller's path, also through a generic Sub view and a mount FS (the added prefix is exactly the stripped one); on well-formed fault-free states the sentinel for each situation (invalid, exists, missing, below a file, not empty, root); Rename with an invalid name gives a LinkError with both names. "
-            "Checked every run: full error values model = implementation (mem); type, path and sentinel implementation = os on mem, Sub(mem, a/ab), a mount FS and os.FS under two Sub roots.",
-            "Not proved: Rename's other failures, MkdirAll/RemoveAll; cache and tar layers are exercised by C04/C10/C12 only. Two known findings (precedence; ancestor named by RemoveAll)."),
+    "C05": ("Proved: in every state (store failures included) each failure of Stat, Mkdir, Remove, Chmod, Chtimes and OpenFile of the key-value model is a PathError naming exactly the caller's path, also through a generic Sub view and a mount FS (the added prefix is exactly the stripped one); on well-formed fault-free states the sentinel for each situation (invalid, exists, missing, below a file, not empty, root); Rename with an invalid name gives a LinkError with both names; in every state every failure of Rename is a LinkError (exactly the caller's names for a non-directory source, the caller's names or both extended by one relative path for a directory) and every error of a handle operation is io.EOF or a PathError. "
+            "Checked every run: full error values model = implementation (mem); type, path and sentinel implementation = os on mem, Sub(mem, a/ab), a mount FS and os.FS under two Sub roots; under a store that fails one call (every index in turn, both transaction paths) every reported error is still typed and names the caller's path.",
+            "Not proved: MkdirAll/RemoveAll; Rename's out-of-fuel marker of the model is excluded by the statement; cache and tar layers are exercised by C04/C10/C12 only. Two known findings (precedence; ancestor named by RemoveAll)."),
     "C06": ("Proved over the mount model: routing is independent of the table's iteration order, selects the longest whole-element prefix, never confuses look-alike prefixes; only the routed constituent changes and the result is the direct one; AddMount succeeds at most/exactly once per point. "
             "Checked every run: routes of all candidate paths and operation histories model = implementation; per-constituent snapshots against a flat reference.",
             "Cross-mount Rename's error class and the covered directory's mode in listings are not constrained (see DESIGN.md 0.6). Concurrency of AddMount is exercised, not proved. Every primitive call of a cross-mount Rename is made to fail in turn: two known findings (it is not all-or-nothing)."),
@@ -203,22 +203,22 @@ LEVELS = {
             "Checked every run: every history x every fault index, plain and transaction store: model = implementation; success despite a failed call only if result and store equal the failure-free ones; view = store afterwards.",
             "Not proved for OpenFile, WriteFile, Rename of directories, MkdirAll, RemoveAll and handle operations (the code ignores failures of look-ups it did not need there)."),
     "C15": ("Proved over the interleaving model of Mkdir/Remove/Stat: linearizability is REFUTED (two witnesses, matching the known findings); unrelated programs commute; single-transaction operations are linearizable; transactions are exclusive and released. "
-            "Checked every run: all interleavings at store-transaction granularity of small programs vs all sequential orders; anomalies are minimised and identified by the shape of the minimal witness; free-running goroutines (writer and readers on one file, namespace work in private and common directories) in a child process built with the race detector: no data race, torn read, panic or deadlock.",
+            "Checked every run: all interleavings at store-transaction granularity of small programs vs all sequential orders; anomalies are minimised and identified by the shape of the minimal witness; a writer held inside its store transaction before each Set while observers run; free-running goroutines (writer and readers on one file, namespace work in private and common directories) in a child process built with the race detector: no data race, torn read, panic or deadlock.",
             "Partial: the property as stated does not hold of the code (three known findings). The race stage is a stress run, not an enumeration."),
     "C16": ("Proved: paging with any positive counts partitions the listing; mixed counts (non-positive = the rest) deliver every child once and reach the end; never an empty page with nil error; EOF iff exhausted; the handle's ReadDir is that pager; listing by name is sorted and a permutation. "
-            "Checked every run: 800 (directory x page sequence) cases on mem, kv, mount, Sub, cache, tar, os; model = implementation.",
+            "Checked every run: 800 (directory x page sequence, counts up to math.MaxInt) cases on mem, kv, mount, Sub, cache, tar, os; model = implementation; 100 cases where one child look-up of a page fails once and the caller reads on.",
             "Layers other than the key-value handle are oracle-only."),
     "C17": ("Proved: every operation on a closed handle fails with ErrClosed and changes nothing; handles are independent; close then closed. "
             "Checked every run: histories mixing namespace changes with open handles: model = implementation, implementation = os.File.",
             "Refuted (known finding): a write/truncate/chmod through a handle whose path was removed or replaced resurrects or clobbers the name."),
     "C18": ("Proved over the transaction model: one result per call in call order; Get sees the store and earlier Sets of the transaction; a handler's error becomes the operation's error; nothing after Abort has an effect; the in-memory store's mutex is released exactly once by whatever call ends the transaction, including a Commit whose context is already cancelled; the serial fallback refuses such a Commit, holds nothing and leaves the store usable. "
-            "Checked every run: 3000 transaction scripts model = implementation (mem store through the build-tagged constructor, and the serial fallback).",
+            "Checked every run: 3000 transaction scripts model = implementation (mem store through the build-tagged constructor, and the serial fallback); a second transaction (read-only, read-write) started while one is live must wait and then see all its Sets.",
             ""),
     "C19": ("Proved: blob.Bytes operations never panic or self-deadlock; reachable blobs are well-formed; out-of-range arguments give an error and change nothing, in-range are accepted; Len/Bytes/View/Slice/Set/Grow/Truncate are the list operations; views write through. "
             "Checked every run: 1500 operation sequences over view trees model = implementation.",
             "idbblob (js/wasm) is not built or exercised in this sandbox."),
     "C20": ("Proved over the model of fstest's tree comparison: with the default mask mode bits are invisible and extra entries are accepted (the known findings as theorems); a kept mode bit is checked; missing entries, wrong sizes and wrong kinds are rejected; the expected tree is accepted. "
-            "Checked every run: the real suite in a child process against mem, os and 66 single-deviation wrappers; assertion layer model = implementation.",
+            "Checked every run: the real suite in a child process against mem, os and 68 single-deviation wrappers; assertion layer model = implementation.",
             "Partial: three classes of deviants are accepted by the suite (known findings)."),
 }
 for _pid, (_t, _n) in LEVELS.items():
